@@ -12,6 +12,7 @@ Apply(op, a, b) ==
       [] op = "sub" -> NumSub(a, b)
       [] op = "mul" -> NumMul(a, b)
       [] op = "div" -> NumDiv(a, b)
+      [] op = "mod" -> NumMod(a, b)
       [] op = "toint32" -> ToInt32N(a)
       [] op = "touint32" -> ToUint32N(a)
       [] op = "touint16" -> ToUint16N(a)
